@@ -163,7 +163,7 @@ func init() {
 			h := bytesHeap(e, st)
 			nd := e.sym.Fresh("uvarint!data", SArr)
 			obj := Select(h, b.Arr)
-			f := e.sym.Func("uvarint_byte", []string{SInt, SInt}, SInt)
+			f := "uvarint_byte" // defined in the prelude
 			q := fmt.Sprintf("(forall ((i Int)) (! (= (select %s i) (ite (and (<= %s i) (< i (+ %s %s))) (%s %s (- i %s)) (select %s i))) :pattern ((select %s i))))",
 				nd.S, b.Off.S, b.Off.S, n.S, f, x.S, b.Off.S, obj.S, nd.S)
 			st.Assume(Term{q, SBool})
@@ -184,13 +184,15 @@ func init() {
 		"encoding/binary.Uvarint": func(e *Engine, st *State, fr *Frame, site ssa.Instruction, callee *ssa.Function, args []Value, k cont) {
 			b := args[0].(VSlice)
 			h := bytesHeap(e, st)
-			fv := e.sym.Func("uvarint_val", []string{SArr, SInt, SInt}, SInt)
-			fn := e.sym.Func("uvarint_n", []string{SArr, SInt, SInt}, SInt)
+			// uvarint_val / uvarint_n are defined exactly in the prelude (10-step unrolling of the
+			// standard library loop); the results are named to keep later terms small.
 			d := Select(h, b.Arr)
-			v := app(SInt, fv, d, b.Off, b.Len)
-			n := app(SInt, fn, d, b.Off, b.Len)
+			v := e.sym.Fresh("uvarint!v", SInt)
+			n := e.sym.Fresh("uvarint!n", SInt)
+			st.Assume(Eq(v, app(SInt, "uvarint_val", d, b.Off, b.Len)))
+			st.Assume(Eq(n, app(SInt, "uvarint_n", d, b.Off, b.Len)))
+			// consequences of the definition, stated to spare the solver the case analysis
 			st.Assume(And(Le(TZero, v), Le(v, BigLit(new(big.Int).Sub(pow2(64), big.NewInt(1))))))
-			// n > 0: bytes read, 1 <= n <= min(len, 10); n == 0: buffer too small; n < 0: overflow, -n bytes read
 			st.Assume(And(Le(n, IntLit(10)), Le(n, b.Len), Ge(n, IntLit(-11)), Le(Sub(TZero, n), b.Len)))
 			st.Assume(Implies(Le(n, TZero), Eq(v, TZero)))
 			k(st, []Value{v, n})
